@@ -7,6 +7,10 @@ package types
 // the consensus state machine's contracts speak about (trusted frame contracts).
 //@ trusted func (hvs *HeightVoteSet) Prevotes(round uint32) (r *types.VoteSet)
 //@ trusted func (hvs *HeightVoteSet) Precommits(round uint32) (r *types.VoteSet)
+// Recording a peer's +2/3 claim touches only the vote sets' own bookkeeping (trusted frame).
+//@ trusted func (hvs *HeightVoteSet) SetPeerMaj23(round uint32, signedMsgType kproto.SignedMsgType, peerID p2p.ID, blockID types.BlockID) (err error)
+//@   requires hvs != nil
+//@   modifies types.VoteSet.maj23, types.VoteSet.peerMaj23s, types.VoteSet.votesByBlock
 //@ trusted func (hvs *HeightVoteSet) POLInfo() (polRound uint32, polBlockID types.BlockID)
 //@ trusted func (rs *RoundState) RoundStateEvent() (r types.EventDataRoundState)
 
